@@ -91,9 +91,58 @@ def _dicts(spec):
     return out
 
 
+def check_interface_members(res):
+    """Datasets that are members of an interface (given as a dataset, as a function, and the implementation's
+    override): the per-dataset effects toggle set on a member - before or after the interface was defined -
+    holds for every evaluation that goes through the interface, for every dispatch value and cache setting."""
+    from labrea import Option, dataset, implements, interface
+
+    fails = []
+    for when in ("toggle-before-interface", "toggle-after-interface"):
+        for cache_opt in ({}, {"LABREA": {"CACHE": {"DISABLED": True}}}):
+            ran = []
+
+            def eff(v):
+                ran.append(v)
+
+            def body(x=Option("A", 0)):
+                return ("member", x)
+
+            member = dataset(body, effects=[eff])
+            if when == "toggle-before-interface":
+                member.disable_effects()
+            I = interface("IMPL")(type("I", (), {"m": member}))
+            if when == "toggle-after-interface":
+                I.m.disable_effects()
+
+            def impl_body(x=Option("A", 0)):
+                return ("impl", x)
+
+            implements(I, alias="x")(type("X", (), {"m": dataset(impl_body)}))
+            user = dataset(lambda v=I.m: ("user", v))
+            for o in ({"A": 1}, {"A": 1, "IMPL": "zz"}, {"A": 2}, {"A": 1, "IMPL": "x"}):
+                oo = dict(o, **cache_opt)
+                res["transitions"] += 1
+                got = observe(None, lambda: user.evaluate(copy.deepcopy(oo)))
+                want = ("user", ("impl", o["A"])) if o.get("IMPL") == "x" else ("user", ("member", o["A"]))
+                if not got.ok or got.value != want:
+                    fails.append({"sig": f"C16|interface|value|{when}|{oo!r}", "what": f"interface member ({when}) under {oo!r}: {got!r}, expected {want!r}", "detail": "", "case": ("interface",)})
+                if ran:
+                    fails.append({"sig": f"C16|interface|effects-disabled-but-ran|{when}", "what": f"the effect of an interface member whose effects are disabled ({when}) ran under {oo!r}", "detail": repr(ran), "case": ("interface",)})
+                    break
+            # switched on again, the effect runs once per computation of the member
+            I.m.enable_effects()
+            del ran[:]
+            got = observe(None, lambda: user.evaluate({"A": 7}))
+            if ran != [("member", 7)]:
+                fails.append({"sig": f"C16|interface|effects-enabled-count|{when}", "what": f"after enable_effects() on the interface member ({when}) the effect ran {ran!r} for one computation", "detail": repr(got), "case": ("interface",)})
+    seen = set()
+    return [f for f in fails if not (f["sig"] in seen or seen.add(f["sig"]))]
+
+
 def cases(tier, seed):
     depth = 3 if tier == "quick" else 4
-    out = []
+    out = [("interface",)]
     for gi in range(len(_graphs())):
         for mode in ("mem", "nocache"):
             out.append(("sys", gi, mode, depth))
@@ -258,6 +307,9 @@ def judge(rig, label, mode, o, c, e, l, got, log, records, requests, twin, twin_
 
 def run_case(case):
     res = {"failures": [], "states": 0, "transitions": 0, "nontrivial": 0, "samples": []}
+    if case[0] == "interface":
+        res["failures"] = check_interface_members(res)
+        return res
     if case[0] == "hist":
         _, gi, mode, hist = case
         label, term, spec = _graphs()[gi]
